@@ -264,7 +264,7 @@ let eval_line (fields : string list) : (string * string) list =
      (* limit >= announced count: same as unlimited *)
      if int_of_string cnt <= int_of_string maxl && res_lim <> res_unlim then
        fail "oracle.C16" "limited decoding differs from unlimited decoding although count <= limit"
-   | op :: _ -> Ops_ext.eval fields fail bump op
+   | op :: _ -> nontrivial (); Ops_ext.eval fields fail bump op
    | [] -> ());
   !fails
 
